@@ -1369,11 +1369,10 @@ def check_mapfiller_macro_arguments(ctx, rep, rule: str):
     funcs = [gh] + [t for cs in T.callsites(gh) if cs.kind == "method" for t in cs.targets if t.cls == gh.cls and t.name not in handler_names]
     ok = False
     for f in funcs:
-        for st in ast.walk(f.node):
-            if isinstance(st, (ast.If, ast.IfExp)):
-                txt = ast.unparse(st.test)
-                if "Macro" in txt and ("Register" in txt or "fundamental" in txt):
-                    ok = True
+        # one test or nested ones (the exact conjunction is decided by the exemption rule of sa/rules/sweep2.py)
+        txt = " ".join(ast.unparse(st.test) for st in ast.walk(f.node) if isinstance(st, (ast.If, ast.IfExp)))
+        if "Macro" in txt and ("Register" in txt or "fundamental" in txt):
+            ok = True
     if ok:
         rep.ok(rule, cons, "a register argument of a call whose definition is a Macro is passed through unvisited", gh.loc())
     else:
